@@ -25,10 +25,12 @@ CLAIMS = {
                 "R_p(lambda dt, mu dt), |R_p - e^{(lambda+mu)t}| <= C_loc t^{p+1} and n steps with n dt <= T are within "
                 "C_loc T exp((|lambda+mu| + C_loc T^p) T) dt^p |u| of the exact solution (explicit C_loc), p = 1..4; the order is "
                 "exactly p; a wrong weight (relative error eps in one coefficient, or the sign typo -4+z for -4-z in the ETDRK4 "
-                "weight) provably destroys it; exponential Euler with ANY globally Lipschitz nonlinear N on C^n with diagonal L "
-                "converges with order 1 and a constant depending on the spectrum only through max(0, sup Re lambda) (stiffness-"
-                "uniform). NOT proved: order 2..4 for genuinely nonlinear N and the transfer from exact to stored contour "
-                "coefficients (5e-8*|dt| floor) - measured by the oracle against an independent DOP853 reference.",
+                "weight) provably destroys it; ETDRK1 and ETDRK2 with ANY globally Lipschitz nonlinear N on C^n with diagonal L "
+                "converge with order 1 resp. 2 (ETDRK2: N(u(t)) with a Lipschitz derivative along the solution) with explicit "
+                "constants depending on the spectrum only through max(0, sup Re lambda) (stiffness-uniform); with coefficients "
+                "perturbed by delta*dt the linear-test bounds hold up to a floor C''*delta, hence for the STORED contour "
+                "coefficients (regenerated E?_coef_i dt lambda 16 1, real lambda<=0, delta=5e-8), p = 1..4. NOT proved: order 3, 4 "
+                "for genuinely nonlinear N - measured by the oracle against an independent DOP853 reference.",
         "technique": "Lean 4 proof over translated ETDRK definitions + model/implementation correspondence",
         "design_ref": "DESIGN.md §5 C02",
     },
